@@ -25,9 +25,16 @@ def main():
         ck.leanchecker(['BctVerif.Props.C03', 'BctVerif.Model.Dist'])
     rp = json.load(open(ck.replay)) if ck.replay else None
     if rp is not None and isinstance(rp.get('case'), dict) and 'case' in rp['case']:
-        cases = [rp['case']['case']]
+        c0 = rp['case']['case']
+        # a failure may depend on what the worker process ran before (hidden state): replay the case as a two-step sequence
+        # (itself, then itself again) unless it already is a sequence / probe
+        cases = [c0 if c0.get('kind') in ('seq', 'probe', 'nav', 'big', 'bad') else
+                 {'kind': 'seq', 'A': c0['A'], 'steps': [c0, c0], 'gen': 'replay', **({'only': c0['only']} if c0.get('only') else {})}]
     else:      # no replay, or a `no-failing-input-found` replay (broken theorem / correspondence): run the whole tier
         cases = dc.gen_dist_cases(ck.rs, ck.tier)
+    if rp is None:
+        # interleave: workers must not see the cases grouped by routine / family / size (hidden state carried between calls)
+        order = ck.rs.permutation(len(cases)); cases = [cases[i] for i in order]
     results = pmap(dc.run_case, cases)
     dc.absorb(ck, cases, results, FUNCS)
     dc.timeout_rates(ck)
